@@ -180,43 +180,42 @@ inductive Line where
   | kv (key val : Str)
   deriving Repr, DecidableEq
 
+/-- `[[a.b]]` / `[a.b]` after the opening bracket(s) -/
+def classifyHeader (array : Bool) (r : Str) : PR Line :=
+  match pathComps (r.length + 1) r with
+  | .ok (p, e) =>
+    if array then
+      (if e.take 2 = [93, 93] then (if lineEnd (e.drop 2) then .ok (.header true p) else .err) else .err)
+    else
+      (if e.take 1 = [93] then (if lineEnd (e.drop 1) then .ok (.header false p) else .err) else .err)
+  | .err => .err
+  | .unsup => .unsup
+
+/-- `key = "value"`; `s` starts with a bare-key character -/
+def classifyKV (s : Str) : PR Line :=
+  let key := s.takeWhile bareKeyChar
+  let r := trimL (s.dropWhile bareKeyChar)
+  if r.take 1 = [61] then
+    let v := trimL (r.drop 1)
+    if v = [] then .err
+    else if v.take 1 ≠ [34] then .unsup               -- other value types
+    else if v.take 3 = [34, 34, 34] then .unsup       -- multi-line string
+    else
+      match unq (v.drop 1) [] with
+      | .ok (val, e) => if lineEnd e then .ok (.kv key val) else .err
+      | .err => .err
+      | .unsup => .unsup
+  else if r.take 1 = [46] then .unsup                 -- dotted key
+  else .err
+
 def classify (line : Str) : PR Line :=
   match trimL line with
   | [] => .ok .blank
   | c :: r =>
     if c = 35 then .ok .blank
     else if c = 13 then .unsup
-    else if c = 91 then
-      match r with
-      | 91 :: r' =>
-        match pathComps (r'.length + 1) r' with
-        | .ok (p, 93 :: 93 :: e) => if lineEnd e then .ok (.header true p) else .err
-        | .ok _ => .err
-        | .err => .err
-        | .unsup => .unsup
-      | _ =>
-        match pathComps (r.length + 1) r with
-        | .ok (p, 93 :: e) => if lineEnd e then .ok (.header false p) else .err
-        | .ok _ => .err
-        | .err => .err
-        | .unsup => .unsup
-    else if bareKeyChar c then
-      let key := (c :: r).takeWhile bareKeyChar
-      match trimL ((c :: r).dropWhile bareKeyChar) with
-      | 61 :: v =>
-        match trimL v with
-        | 34 :: s =>
-          match s with
-          | 34 :: 34 :: _ => .unsup               -- multi-line string
-          | _ =>
-            match unq s [] with
-            | .ok (val, e) => if lineEnd e then .ok (.kv key val) else .err
-            | .err => .err
-            | .unsup => .unsup
-        | [] => .err
-        | _ => .unsup                              -- other value types
-      | 46 :: _ => .unsup                          -- dotted key
-      | _ => .err
+    else if c = 91 then (if r.take 1 = [91] then classifyHeader true (r.drop 1) else classifyHeader false r)
+    else if bareKeyChar c then classifyKV (c :: r)
     else if c = 34 ∨ c = 39 then .unsup            -- quoted key in a key/value line
     else .err
 
